@@ -17,6 +17,8 @@ c04conn correspondence, not by a `legacy_eq_spec` theorem (see docs/notes/C04.md
 -/
 import KafkaVerif.Lemmas.CodecRT
 import KafkaVerif.Spec.KafkaWire
+import KafkaVerif.Lemmas.GrowthSource
+import KafkaVerif.Gen.Routing
 
 namespace KV.C04
 open KV KV.Wire KV.Codec
@@ -673,5 +675,39 @@ theorem frameResponse_eq_spec (flex : Bool) (corr : Int) (t : Ty) (v : Val) (hwf
   simp only [List.length_append] at hsz ⊢
   rw [be_eq_encInt 4 _ (by omega)]
   exact encInt_eq_sint 4 _ (by omega) (by omega)
+
+/-! ### the buffers the decoder builds while a value arrives (decodeElems / read) -/
+
+/-- **a decoded array has exactly the announced number of elements**: `decodeElems` of the current source allocates
+`arrayInit n` slots and regrows by `arrayGrow` while elements keep arriving; when all `n` elements have arrived the array in use
+has `n` slots — not the next power-of-two multiple of the chunk (the model's `decodeElems` returns `n` values; this is the part of
+the real function the model abstracts, regenerated from the source) -/
+theorem array_decodes_to_announced_length (n : Nat) :
+    KV.Growth.finalCap KV.GrowthSource.arrayPolicy n n = n :=
+  KV.Growth.finalCap_complete _ _ KV.GrowthSource.arrayPolicy_ok n
+
+/-- the same for strings and byte sequences read by `(*decoder).read` -/
+theorem bytes_decode_to_announced_length (n : Nat) :
+    KV.Growth.finalCap KV.GrowthSource.readPolicy n n = n :=
+  KV.Growth.finalCap_complete _ _ KV.GrowthSource.readPolicy_ok n
+
+/-! ### the version in the request header -/
+
+/-- **a version no higher than the broker advertised** (and no lower, and within the library's own range) whenever the two
+ranges overlap: `ApiKey.SelectVersion`, the function `transport.go` stamps every request of the Transport/Client path with
+(`Gen.Routing.selectVersionSrc`, regenerated statement by statement from protocol/protocol.go) -/
+theorem request_version_within_advertised (cmin cmax bmin bmax : Int)
+    (hc : cmin ≤ cmax) (hb : bmin ≤ bmax) (hov : cmin ≤ bmax ∧ bmin ≤ cmax) :
+    KV.Gen.Routing.selectVersionSrc cmin cmax bmin bmax ≤ bmax ∧ bmin ≤ KV.Gen.Routing.selectVersionSrc cmin cmax bmin bmax ∧
+      cmin ≤ KV.Gen.Routing.selectVersionSrc cmin cmax bmin bmax ∧ KV.Gen.Routing.selectVersionSrc cmin cmax bmin bmax ≤ cmax := by
+  simp only [KV.Gen.Routing.selectVersionSrc]
+  (repeat' split) <;> omega
+
+/-- without a common version the library's own bound nearest to the broker's range is used (the broker will refuse it; there is
+nothing canonical to send) -/
+theorem request_version_disjoint (cmin cmax bmin bmax : Int) (hc : cmin ≤ cmax) (h : bmax < cmin) :
+    KV.Gen.Routing.selectVersionSrc cmin cmax bmin bmax = cmin := by
+  simp only [KV.Gen.Routing.selectVersionSrc]
+  (repeat' split) <;> omega
 
 end KV.C04
